@@ -163,7 +163,37 @@ fn make_simple_summary_txs(
         };
         (vec![summary_tx], Vec::new())
     } else {
-        (Vec::new(), vec![SHARE_BALANCE_ZERO_WARNING.to_string()])
+        (
+            make_zero_share_acb_carry_over_txs(af, &deltas[latest_summarizable_delta_idx]),
+            vec![SHARE_BALANCE_ZERO_WARNING.to_string()],
+        )
+    }
+}
+
+/// When no shares are left at the end of the summarized period, there can still be
+/// a cost base: a superficial loss on the sale of the last shares is added to the
+/// ACB right away, before the shares re-acquired within the period have settled.
+/// Carries it over as an SfLA, otherwise the denied loss would vanish from the
+/// summary. Returns nothing if there is no such cost base.
+fn make_zero_share_acb_carry_over_txs(af: &Affiliate, delta: &TxDelta) -> Vec<Tx> {
+    let post_status = &delta.post_status;
+    if !post_status.share_balance.is_zero() {
+        return Vec::new();
+    }
+    match post_status.total_acb.map(|acb| PosDecimal::try_from(*acb)) {
+        Some(Ok(total_acb)) => vec![Tx {
+            security: delta.tx.security.clone(),
+            trade_date: delta.tx.settlement_date,
+            settlement_date: delta.tx.settlement_date,
+            action_specifics: super::TxActionSpecifics::Sfla(super::SflaTxSpecifics {
+                shares_affected: PosDecimal::one(),
+                amount_per_share: total_acb,
+            }),
+            memo: "Summary (ACB carried over with no shares)".to_string(),
+            affiliate: af.clone(),
+            read_index: 0,
+        }],
+        _ => Vec::new(),
     }
 }
 
@@ -298,6 +328,11 @@ fn make_annual_gains_summary_txs(
 
         summary_period_txs.push(summary_tx);
     }
+
+    summary_period_txs.append(&mut make_zero_share_acb_carry_over_txs(
+        af,
+        &deltas[latest_summarizable_delta_idx],
+    ));
 
     (summary_period_txs, warnings)
 }
